@@ -529,5 +529,42 @@ func c03ListenerMatch(c *Ctx) {
 		bh, ok2 := isLoadOf(callArg(cs.In, 1), "SIPURI.Host")
 		c.check(ok1 && ok2 && isURI(bu) && isURI(bh), rule, "isMyMessage/matchSIPURI-args", w.ipos(cs.In), "service match on (user, host) of the Request-URI", "matchSIPURI is not given (User, Host) of the Request-URI")
 	}
+	// what the service names are matched against: a regular expression sees user@host of a SIP URI (never the bare
+	// host) and the whole text of another URI; a literal name without '@' names a host, one with '@' user and host
+	if ms := c.fn(rule, "(*MyName).matchSIPURI"); ms != nil {
+		good, n := true, 0
+		for _, cs := range w.callsIn(ms) {
+			if cs.Name != "(*regexp.Regexp).MatchString" {
+				continue
+			}
+			n++
+			sv := w.evalStr(callArg(cs.In, 0), senv{}, 0)
+			txt := renderParts(sv.parts, func(x ssa.Value) string {
+				for i, p := range ms.Params {
+					if strip(x) == ssa.Value(p) {
+						return fmt.Sprintf("p%d", i)
+					}
+				}
+				return "?"
+			})
+			if txt != "{p1:%s}@{p2:%s}" {
+				good = false
+			}
+		}
+		c.check(good && n >= 1, rule, "matchSIPURI/pattern-subject", w.pos(ms.Pos()), "patterns are matched against user@host", "matchSIPURI applies a service-name pattern to something other than user@host (e.g. also to the bare host): a request whose user part the pattern excludes is taken for the service's and sent to a backend instead of being dropped")
+	}
+	if ma := c.fn(rule, "(*MyName).matchAbsoluteURI"); ma != nil {
+		good, n := true, 0
+		for _, cs := range w.callsIn(ma) {
+			if cs.Name != "(*regexp.Regexp).MatchString" {
+				continue
+			}
+			n++
+			if !isParam(ma, callArg(cs.In, 0), 1) {
+				good = false
+			}
+		}
+		c.check(good && n >= 1, rule, "matchAbsoluteURI/pattern-subject", w.pos(ma.Pos()), "patterns are matched against the whole URI", "matchAbsoluteURI applies a service-name pattern to something other than the whole URI text")
+	}
 	c.floor(rule, 4)
 }
